@@ -296,7 +296,7 @@ theorem step_sep1 (O : Oracles) (f : Format) (s : List Nat) (len a idx : Nat) (s
   rw [if_neg (by intro h; exact hoh (htok ▸ h.1)), if_neg (by intro h; omega), if_neg (by rw [htok]; exact hts),
     if_neg (by intro h; exact h.2 (by rw [hcur, hsep])), if_neg (by intro h; exact hoh (htok ▸ h.1))]
   unfold stepField
-  rw [if_pos (Or.inr ha)]
+  rw [if_pos (Or.inr ⟨ha, Or.inl (by rw [htok]; exact hnum)⟩)]
   have hsn : (st.cur.sepIsNot a && (st.cur.sep2.isNone || st.cur.sep2IsNot a)) = false := by
     unfold Item.sepIsNot; rw [hcur, hsep]; simp
   rw [hsn]
@@ -310,7 +310,9 @@ theorem step_sep1 (O : Oracles) (f : Format) (s : List Nat) (len a idx : Nat) (s
   have hn : pre.length + (numText F it).length - pre.length = (numText F it).length := by omega
   rw [hn, htok, hstore]
   simp only [Bool.false_eq_true, if_false]
-  rw [if_neg (by rw [(storeFld_frame _ _ _).1]; exact hoh2), hcur]
+  rw [if_neg (by rw [(storeFld_frame _ _ _).1]; exact hoh2),
+    if_neg (by intro h; rw [(storeFld_frame _ _ _).2.2.1] at h; simp only at h; rw [hcur, hsep] at h; exact absurd h.2.2 (by simp)),
+    hcur]
 
 /-- the last character of the text, a digit of the last item's field: the field is stored -/
 theorem step_last (O : Oracles) (f : Format) (s : List Nat) (len c idx : Nat) (st : St) (F : Flds)
@@ -341,11 +343,11 @@ theorem step_last (O : Oracles) (f : Format) (s : List Nat) (len c idx : Nat) (s
   rw [if_neg (by intro h; exact hoh (htok ▸ h.1)), if_neg (by intro h; omega), if_neg (by rw [htok]; exact hts),
     if_neg (by intro h; unfold isDigitC at hc; omega), if_neg (by intro h; exact hoh (htok ▸ h.1))]
   unfold stepField
-  have hno : ¬ (idx + 1 ≠ len ∨ isNum c = false) := by
+  have hno : ¬ (idx + 1 ≠ len ∨ (isNum c = false ∧ (st.tok.isNumeric = true ∨ st.cur.sep1 = some c))) := by
     intro h
     rcases h with h | h
     · omega
-    · rw [hcn] at h; exact absurd h (by decide)
+    · rw [hcn] at h; exact absurd h.1 (by decide)
   rw [if_neg hno]
   unfold afterEnd
   simp only
@@ -355,7 +357,7 @@ theorem step_last (O : Oracles) (f : Format) (s : List Nat) (len c idx : Nat) (s
   have hn : pre.length + (numText F it).length - pre.length = (numText F it).length := by omega
   rw [hn, htok, hstore]
   simp only [Bool.false_eq_true, if_false]
-  rw [if_neg (by rw [(storeFld_frame _ _ _).1]; simp only; exact hoh), hcur]
+  rw [if_neg (by rw [(storeFld_frame _ _ _).1]; simp only; exact hoh), if_neg (by intro h; omega), hcur]
 
 /-! ### the loop over the items -/
 
@@ -710,40 +712,82 @@ theorem parse_back_num7 (O : Oracles) (f : Format) (e : Ep) (hutc : e.ts = TS.UT
     simp only
     rw [add_zero_canon e.dur hd]
 
-/-! ### a final `%T` (UTC) -/
+/-! ### a final `%T` (any time scale; read since fix D39) -/
 
-/-- the text `UTC` -/
-def utcText : List Nat := [85, 84, 67]
+/-- the text of a time scale -/
+def scaleText (ts : TS) : List Nat := Cal.strCodes ts.name
 
-/-- the text of an item of a format "numeric items, then `%T`" for a UTC epoch -/
-def textNT (F : Flds) (it : Item) : List Nat := if it.token = .Timescale then utcText else numText F it
+def isUpperC (c : Nat) : Prop := 65 ≤ c ∧ c ≤ 90
 
-/-- the final `%T` item on the text `UTC`: nothing is read (UTC is the default), the loop ends -/
-theorem loop_T (O : Oracles) (f : Format) (s pre : List Nat) (st : St) (itT : Item)
-    (hs : s = pre ++ utcText) (hcur : st.cur = itT) (htok : st.tok = .Timescale) (hsep : itT.sep1 = none)
-    (hprev : st.prevIdx ≤ pre.length) :
-    parseLoop O f s s.length utcText pre.length st = .ok st := by
-  have hlen : s.length = pre.length + 3 := by rw [hs]; simp [utcText]
-  have hnt : ∀ c idx, idx + 1 ≠ s.length → trigger s.length c idx st = false := by
-    intro c idx hi
-    unfold trigger Item.sepIs
-    rw [htok, hcur, hsep]
-    simp [Token.isNumeric, hi]
-  have htr : trigger s.length 67 (pre.length + 1 + 1) st = true := by
+theorem upper_not_ws (c : Nat) (h : isUpperC c) : isWs c = false := by
+  unfold isUpperC at h
+  unfold isWs inRanges
+  simp [Gen.EFMT_IS_WHITESPACE]
+  omega
+
+theorem scale_facts (ts : TS) :
+    2 ≤ (scaleText ts).length ∧ (∀ c ∈ scaleText ts, isUpperC c) ∧
+    timescaleFromStr (scaleText ts) = some ts := by
+  cases ts <;> (refine ⟨by decide, ?_, by decide +kernel⟩; intro c hc; simp [scaleText, Cal.strCodes, TS.name] at hc;
+                unfold isUpperC; omega)
+
+/-- the text of an item of a format "numeric items, then `%T`" for an epoch of scale `ts` -/
+def textNT (F : Flds) (ts : TS) (it : Item) : List Nat := if it.token = .Timescale then scaleText ts else numText F it
+
+theorem dropWhile_none (l : List Nat) : l.dropWhile (fun c => decide ((none : Option Nat) = some c)) = l := by
+  cases l <;> simp [List.dropWhile]
+
+/-- letters of the scale that are not the last character do nothing while `%T` (without separator) is current -/
+theorem scan_T (O : Oracles) (f : Format) (s : List Nat) (len : Nat) :
+    ∀ (cs tl : List Nat) (idx : Nat) (st : St),
+      st.tok = .Timescale → st.cur.sep1 = none → idx + cs.length < len →
+      parseLoop O f s len (cs ++ tl) idx st = parseLoop O f s len tl (idx + cs.length) st
+  | [], tl, idx, st, _, _, _ => by simp
+  | c :: cs, tl, idx, st, ht, hsep, hl => by
+    simp only [List.length_cons] at hl
+    have htr : trigger len c idx st = false := by
+      unfold trigger Item.sepIs
+      have : ¬ (idx + 1 = len) := by omega
+      rw [ht, hsep]
+      simp [Token.isNumeric, this]
+    simp only [List.cons_append, parseLoop, stepChar, htr, Bool.false_eq_true, if_false]
+    rw [scan_T O f s len cs tl (idx + 1) st ht hsep (by omega)]
+    simp only [List.length_cons]
+    have : idx + 1 + cs.length = idx + (cs.length + 1) := by omega
+    rw [this]
+
+/-- the final `%T` item on the name of a time scale: the scale is read at the last character, the loop ends -/
+theorem loop_T (O : Oracles) (f : Format) (s pre : List Nat) (st : St) (itT : Item) (ts : TS)
+    (hs : s = pre ++ scaleText ts) (hpre : Ascii pre) (hcur : st.cur = itT) (htok : st.tok = .Timescale)
+    (hsep : itT.sep1 = none) (hprev : st.prevIdx = pre.length) (hp2 : st.prev.sep2 = none) :
+    parseLoop O f s s.length (scaleText ts) pre.length st = .ok { st with ts := ts } := by
+  obtain ⟨hl2, hup, hfs⟩ := scale_facts ts
+  obtain ⟨nm', c, hnm⟩ := exists_snoc (scaleText ts) (by intro h; rw [h] at hl2; simp at hl2)
+  have hnl : (scaleText ts).length = nm'.length + 1 := by rw [hnm]; simp
+  have hlen : s.length = pre.length + nm'.length + 1 := by rw [hs]; simp only [List.length_append]; omega
+  have hasc : Ascii (scaleText ts) := fun x hx => by have := hup x hx; unfold isUpperC at this; omega
+  rw [hnm, scan_T O f s s.length nm' [c] pre.length st htok (by rw [hcur]; exact hsep) (by omega)]
+  have htr : trigger s.length c (pre.length + nm'.length) st = true := by
     unfold trigger
-    have : pre.length + 1 + 1 + 1 = s.length := by omega
+    have : pre.length + nm'.length + 1 = s.length := by omega
     simp [this]
-  unfold utcText
   simp only [parseLoop, stepChar]
-  rw [hnt 85 pre.length (by omega)]
-  simp only [Bool.false_eq_true, if_false]
-  rw [hnt 84 (pre.length + 1) (by omega)]
-  simp only [Bool.false_eq_true, if_false]
   rw [if_pos htr]
   unfold stepBody
   rw [if_neg (by intro h; rw [htok] at h; exact absurd h.1 (by decide)), if_neg (by intro h; omega), if_pos htok]
   unfold stepTimescale
-  rw [if_neg (by intro h; exact h (by omega))]
+  rw [if_neg (by intro h; exact h (by omega)), hprev, hs]
+  have hdb : dropBytes (pre ++ scaleText ts) pre.length = some (scaleText ts) := dropBytes_ascii pre _ hpre
+  rw [hdb]
+  simp only
+  have htrim : trim (scaleText ts) = scaleText ts := by
+    apply trim_id
+    · intro x hx
+      cases hst : scaleText ts with
+      | nil => rw [hst] at hl2; simp at hl2
+      | cons y r => rw [hst] at hx; simp at hx; subst hx; exact upper_not_ws _ (hup _ (by rw [hst]; simp))
+    · intro x hx; rw [hnm] at hx; simp at hx; subst hx; exact upper_not_ws _ (hup _ (by rw [hnm]; simp))
+  rw [htrim, hp2, dropWhile_none, hfs]
 
 /-- a non-final numeric item with ONE separator, followed by the final `%T` -/
 theorem item_mid_T (O : Oracles) (f : Format) (F : Flds) (hF : F.InRange) (s : List Nat) (h16 : f.items.length ≤ 16)
@@ -756,8 +800,9 @@ theorem item_mid_T (O : Oracles) (f : Format) (F : Flds) (hF : F.InRange) (s : L
     ∃ st1, parseLoop O f s s.length (numText F it ++ [a] ++ tail) pre.length st
         = parseLoop O f s s.length tail (pre ++ numText F it ++ [a]).length st1 ∧
       st1.data = (storeFld it.token F st).data ∧ st1.cur = itT ∧ st1.tok = .Timescale ∧
-      st1.prevIdx = (pre ++ numText F it ++ [a]).length := by
+      st1.prevIdx = (pre ++ numText F it ++ [a]).length ∧ st1.prev = it ∧ Ascii (pre ++ numText F it ++ [a]) := by
   obtain ⟨hl2, hdig, _, _⟩ := numText_spec F hF it h7i
+  have hasc := numText_ascii F hF it h7i
   have hnext : f.items[st.curIdx + 1]? = some itT := by rw [hf, hci]; simp
   have hlen : st.curIdx + 1 < f.items.length := by rw [hf, hci]; simp
   have hnumc : st.tok.isNumeric = true := by rw [hc2]; exact (num7_facts _ h7i).1
@@ -766,7 +811,7 @@ theorem item_mid_T (O : Oracles) (f : Format) (F : Flds) (hF : F.InRange) (s : L
   have hstep := step_sep1 O f s s.length a (pre.length + (numText F it).length) st F it itT pre ([a] ++ tail)
     (by rw [hs]; simp [List.append_assoc]) hpre hF h7i (by rw [hT]; decide) hc1 hc2 hprev rfl hsa hna hnext hlen h16
   refine ⟨{ storeFld it.token F { st with prev := it, curIdx := st.curIdx + 1, cur := itT, tok := itT.token }
-        with prevIdx := pre.length + (numText F it).length + 1 }, ?_, ?_, ?_, ?_, ?_⟩
+        with prevIdx := pre.length + (numText F it).length + 1 }, ?_, ?_, ?_, ?_, ?_, ?_, ?_⟩
   · rw [List.append_assoc, scan_digits O f s s.length _ _ pre.length st hnumc hdig hslen]
     simp only [List.cons_append, List.nil_append, parseLoop]
     rw [hstep]
@@ -777,50 +822,61 @@ theorem item_mid_T (O : Oracles) (f : Format) (F : Flds) (hF : F.InRange) (s : L
   · simp only; rw [(storeFld_frame _ _ _).2.1]
   · simp only; rw [(storeFld_frame _ _ _).1]; exact hT
   · simp; omega
+  · simp only; rw [(storeFld_frame _ _ _).2.2.1]
+  · intro c hc
+    simp at hc
+    rcases hc with hc | hc | hc
+    · exact hpre c hc
+    · exact hasc c hc
+    · omega
 
 /-- the loop over "numeric items, then `%T`" -/
-theorem loop_numsT (O : Oracles) (f : Format) (F : Flds) (hF : F.InRange) (s : List Nat)
+theorem loop_numsT (O : Oracles) (f : Format) (F : Flds) (hF : F.InRange) (s : List Nat) (ts : TS)
     (h16 : f.items.length ≤ 16) (itT : Item) (hT : itT.token = .Timescale) (hTsep : itT.sep1 = none) :
     ∀ (nums done : List Item) (pre : List Nat) (st : St),
       f.items = done ++ (nums ++ [itT]) → nums ≠ [] → (∀ it ∈ nums, isNum7 it.token = true) →
       (∀ it ∈ nums, GoodSep it) →
       (∀ it, nums.getLast? = some it → it.sep2 = none) →
-      s = pre ++ concatItems (textNT F) (nums ++ [itT]) → Ascii pre →
+      s = pre ++ concatItems (textNT F ts) (nums ++ [itT]) → Ascii pre →
       st.curIdx = done.length → (∀ it, nums.head? = some it → st.cur = it ∧ st.tok = it.token) →
       st.prevIdx = pre.length →
-      ∃ st', parseLoop O f s s.length (concatItems (textNT F) (nums ++ [itT])) pre.length st = .ok st' ∧
-        st'.data = (foldFlds F nums st).data
+      ∃ st', parseLoop O f s s.length (concatItems (textNT F ts) (nums ++ [itT])) pre.length st = .ok st' ∧
+        st'.data = ({ foldFlds F nums st with ts := ts } : St).data
   | [], _, _, _, _, hne, _, _, _, _, _, _, _, _ => absurd rfl hne
   | [it], done, pre, st, hf, _, h7, hgood, hlast, hs, hpre, hci, hcur, hprev => by
     have h7i := h7 it (by simp)
     obtain ⟨hc1, hc2⟩ := hcur it rfl
     obtain ⟨a, hsa, hna, ha128, _⟩ := hgood it (by simp)
     have hs2 := hlast it rfl
-    have hti : textNT F it = numText F it := by
+    have hti : textNT F ts it = numText F it := by
       unfold textNT; rw [if_neg (by intro h; exact (num7_facts _ h7i).2.2 h)]
-    have htT : textNT F itT = utcText := by unfold textNT; rw [if_pos hT]
+    have htT : textNT F ts itT = scaleText ts := by unfold textNT; rw [if_pos hT]
     have hst : it.sepText = [a] := by unfold Item.sepText; rw [hsa, hs2]; rfl
     simp only [List.cons_append, List.nil_append, concatItems, hti, htT, hst] at hs ⊢
-    obtain ⟨st1, hl1, hd1, hcur1, htok1, hprev1⟩ :=
-      item_mid_T O f F hF s h16 it itT done pre utcText st (by rw [hf]; simp) h7i hT a hsa hs2 hna ha128 hs hpre
+    obtain ⟨st1, hl1, hd1, hcur1, htok1, hprev1, hprevit, hasc1⟩ :=
+      item_mid_T O f F hF s h16 it itT done pre (scaleText ts) st (by rw [hf]; simp) h7i hT a hsa hs2 hna ha128 hs hpre
         hci hc1 hc2 hprev
-    rw [hl1, loop_T O f s (pre ++ numText F it ++ [a]) st1 itT (by rw [hs]; simp [List.append_assoc]) hcur1 htok1
-      hTsep (by omega)]
-    exact ⟨st1, rfl, by rw [hd1]; rfl⟩
+    rw [hl1, loop_T O f s (pre ++ numText F it ++ [a]) st1 itT ts (by rw [hs]; simp [List.append_assoc]) hasc1 hcur1 htok1
+      hTsep hprev1 (by rw [hprevit]; exact hs2)]
+    refine ⟨_, rfl, ?_⟩
+    simp only [St.data, Prod.mk.injEq] at hd1 ⊢
+    simp only [foldFlds]
+    obtain ⟨e1, e2, e3, e4, e5, e6, e7, e8, e9, e10, e11, e12, e13⟩ := hd1
+    exact ⟨e1, e2, e3, e4, e5, e6, e7, e8, e9, trivial, e11, e12, e13⟩
   | it :: it2 :: rest, done, pre, st, hf, _, h7, hgood, hlast, hs, hpre, hci, hcur, hprev => by
     obtain ⟨hc1, hc2⟩ := hcur it rfl
     have h7i := h7 it (by simp)
     have h7j := h7 it2 (by simp)
-    have hti : textNT F it = numText F it := by
+    have hti : textNT F ts it = numText F it := by
       unfold textNT; rw [if_neg (by intro h; exact (num7_facts _ h7i).2.2 h)]
-    have hcc : concatItems (textNT F) (it :: it2 :: rest ++ [itT]) =
-        numText F it ++ it.sepText ++ concatItems (textNT F) (it2 :: rest ++ [itT]) := by
+    have hcc : concatItems (textNT F ts) (it :: it2 :: rest ++ [itT]) =
+        numText F it ++ it.sepText ++ concatItems (textNT F ts) (it2 :: rest ++ [itT]) := by
       simp only [List.cons_append, concatItems, hti]
     rw [hcc] at hs ⊢
     obtain ⟨st1, hl1, hd1, hci1, hcur1, htok1, hprev1, hasc1⟩ :=
-      item_mid O f F hF s h16 it it2 done (rest ++ [itT]) pre (concatItems (textNT F) (it2 :: rest ++ [itT])) st
+      item_mid O f F hF s h16 it it2 done (rest ++ [itT]) pre (concatItems (textNT F ts) (it2 :: rest ++ [itT])) st
         (by rw [hf]; simp) h7i h7j (hgood it (by simp)) hs hpre hci hc1 hc2 hprev
-    obtain ⟨st', hl, hd⟩ := loop_numsT O f F hF s h16 itT hT hTsep (it2 :: rest) (done ++ [it])
+    obtain ⟨st', hl, hd⟩ := loop_numsT O f F hF s ts h16 itT hT hTsep (it2 :: rest) (done ++ [it])
       (pre ++ numText F it ++ it.sepText) st1 (by rw [hf]; simp) (by simp)
       (fun i hi => h7 i (List.mem_cons_of_mem _ hi)) (fun i hi => hgood i (List.mem_cons_of_mem _ hi))
       (fun i hi => hlast i (by simpa [List.getLast?_cons_cons] using hi))
@@ -829,21 +885,26 @@ theorem loop_numsT (O : Oracles) (f : Format) (F : Flds) (hF : F.InRange) (s : L
     rw [hl1, hl]
     refine ⟨st', rfl, ?_⟩
     rw [hd]
-    show (foldFlds F (it2 :: rest) st1).data = (foldFlds F (it2 :: rest) (storeFld it.token F st)).data
-    exact foldFlds_data F _ _ _ hd1
+    have := foldFlds_data F (it2 :: rest) st1 (storeFld it.token F st) hd1
+    simp only [St.data, Prod.mk.injEq] at this ⊢
+    simp only [foldFlds] at this ⊢
+    obtain ⟨e1, e2, e3, e4, e5, e6, e7, e8, e9, e10, e11, e12, e13⟩ := this
+    exact ⟨e1, e2, e3, e4, e5, e6, e7, e8, e9, trivial, e11, e12, e13⟩
 
-theorem concatItemsT_shape (F : Flds) (hF : F.InRange) (itT : Item) (hT : itT.token = .Timescale) :
+theorem concatItemsT_shape (F : Flds) (hF : F.InRange) (ts : TS) (itT : Item) (hT : itT.token = .Timescale) :
     ∀ (nums : List Item), nums ≠ [] → (∀ it ∈ nums, isNum7 it.token = true) → (∀ it ∈ nums, GoodSep it) →
-    Ascii (concatItems (textNT F) (nums ++ [itT])) ∧
-    (∃ c post, isDigitC c ∧ concatItems (textNT F) (nums ++ [itT]) = c :: post) ∧
-    (∃ pre, concatItems (textNT F) (nums ++ [itT]) = pre ++ [67])
+    Ascii (concatItems (textNT F ts) (nums ++ [itT])) ∧
+    (∃ c post, isDigitC c ∧ concatItems (textNT F ts) (nums ++ [itT]) = c :: post) ∧
+    (∃ pre c, isUpperC c ∧ concatItems (textNT F ts) (nums ++ [itT]) = pre ++ [c])
   | [], h, _, _ => absurd rfl h
   | [it], _, h7, hgood => by
     have h7i := h7 it (by simp)
     obtain ⟨hl2, hdig, _, _⟩ := numText_spec F hF it h7i
-    have hti : textNT F it = numText F it := by
+    obtain ⟨hsl2, hup, _⟩ := scale_facts ts
+    obtain ⟨nm', cl, hnm⟩ := exists_snoc (scaleText ts) (by intro h; rw [h] at hsl2; simp at hsl2)
+    have hti : textNT F ts it = numText F it := by
       unfold textNT; rw [if_neg (by intro h; exact (num7_facts _ h7i).2.2 h)]
-    have htT : textNT F itT = utcText := by unfold textNT; rw [if_pos hT]
+    have htT : textNT F ts itT = scaleText ts := by unfold textNT; rw [if_pos hT]
     obtain ⟨a, hsa, _, ha128, hsep2⟩ := hgood it (by simp)
     have hsepA : Ascii it.sepText := by
       intro x hx
@@ -858,17 +919,17 @@ theorem concatItemsT_shape (F : Flds) (hF : F.InRange) (itT : Item) (hT : itT.to
       rcases hx with (hx | hx) | hx
       · exact numText_ascii F hF it h7i x hx
       · exact hsepA x hx
-      · unfold utcText at hx; simp at hx; omega
+      · have := hup x hx; unfold isUpperC at this; omega
     · cases hD : numText F it with
       | nil => rw [hD] at hl2; simp at hl2
-      | cons c0 post => exact ⟨c0, post ++ (it.sepText ++ utcText), hdig c0 (by rw [hD]; simp), by simp⟩
-    · exact ⟨numText F it ++ it.sepText ++ [85, 84], by simp [utcText, List.append_assoc]⟩
+      | cons c0 post => exact ⟨c0, post ++ (it.sepText ++ scaleText ts), hdig c0 (by rw [hD]; simp), by simp⟩
+    · exact ⟨numText F it ++ it.sepText ++ nm', cl, hup cl (by rw [hnm]; simp), by rw [hnm]; simp [List.append_assoc]⟩
   | it :: it2 :: r, _, h7, hgood => by
     have h7i := h7 it (by simp)
     obtain ⟨hl2, hdig, _, _⟩ := numText_spec F hF it h7i
-    have hti : textNT F it = numText F it := by
+    have hti : textNT F ts it = numText F it := by
       unfold textNT; rw [if_neg (by intro h; exact (num7_facts _ h7i).2.2 h)]
-    obtain ⟨ih1, _, ⟨pre, hlast⟩⟩ := concatItemsT_shape F hF itT hT (it2 :: r) (by simp)
+    obtain ⟨ih1, _, ⟨pre, cl, hcl, hlast⟩⟩ := concatItemsT_shape F hF ts itT hT (it2 :: r) (by simp)
       (fun i hi => h7 i (List.mem_cons_of_mem _ hi)) (fun i hi => hgood i (List.mem_cons_of_mem _ hi))
     obtain ⟨a, hsa, _, ha128, hsep2⟩ := hgood it (by simp)
     have hsepA : Ascii it.sepText := by
@@ -877,8 +938,8 @@ theorem concatItemsT_shape (F : Flds) (hF : F.InRange) (itT : Item) (hT : itT.to
       rcases hsep2 with hs2 | ⟨b, hs2, _, hb128⟩
       · rw [hsa, hs2] at hx; simp at hx; omega
       · rw [hsa, hs2] at hx; simp at hx; omega
-    have hcc : concatItems (textNT F) (it :: it2 :: r ++ [itT]) =
-        numText F it ++ it.sepText ++ concatItems (textNT F) (it2 :: r ++ [itT]) := by
+    have hcc : concatItems (textNT F ts) (it :: it2 :: r ++ [itT]) =
+        numText F it ++ it.sepText ++ concatItems (textNT F ts) (it2 :: r ++ [itT]) := by
       simp only [List.cons_append, concatItems, hti]
     rw [hcc]
     refine ⟨?_, ?_, ?_⟩
@@ -891,12 +952,13 @@ theorem concatItemsT_shape (F : Flds) (hF : F.InRange) (itT : Item) (hT : itT.to
     · cases hD : numText F it with
       | nil => rw [hD] at hl2; simp at hl2
       | cons c0 post =>
-        exact ⟨c0, post ++ (it.sepText ++ concatItems (textNT F) (it2 :: r ++ [itT])), hdig c0 (by rw [hD]; simp), by simp⟩
-    · exact ⟨numText F it ++ it.sepText ++ pre, by rw [hlast]; simp [List.append_assoc]⟩
+        exact ⟨c0, post ++ (it.sepText ++ concatItems (textNT F ts) (it2 :: r ++ [itT])), hdig c0 (by rw [hD]; simp), by simp⟩
+    · exact ⟨numText F it ++ it.sepText ++ pre, cl, hcl, by rw [hlast]; simp [List.append_assoc]⟩
 
-/-- PARSE BACK (numeric class with a final `%T`).  As `parse_back_num7`, the format ending with a
-    non-optional `%T` item; the numeric item before it has exactly one separator. -/
-theorem parse_back_numT (O : Oracles) (f : Format) (e : Ep) (hutc : e.ts = TS.UTC)
+/-- PARSE BACK (numeric class with a final `%T`), ANY TIME SCALE.  As `parse_back_num7`, the format ending
+    with a non-optional `%T` item (read by `Format::parse` since fix D39); the numeric item before it has
+    exactly one separator.  The epoch may be in any of the nine scales. -/
+theorem parse_back_numT (O : Oracles) (f : Format) (e : Ep)
     (hd : e.dur.Canon) (hr : Cal.InCal e.dur.val)
     (hy : ∀ y mo dd h mi s ns, Cal.computeGregorian e.dur e.ts = .ok (y, mo, dd, h, mi, s, ns) → 0 ≤ y ∧ y ≤ 9999)
     (nums : List Item) (itT : Item) (hitems : f.items = nums ++ [itT]) (hne : nums ≠ []) (h16 : f.items.length ≤ 16)
@@ -929,7 +991,7 @@ theorem parse_back_numT (O : Oracles) (f : Format) (e : Ep) (hutc : e.ts = TS.UT
       · exact ⟨num7_supported _ (h7 it hi).1, (h7 it hi).2⟩
       · simp at hi; subst hi; exact ⟨by rw [hT]; rfl, hTopt⟩) hg hz hdoy
   have hcongr := concatItems_congr (fun it => tokBytes it.token y mo dd h mi s ns e [43, 48, 48, 58, 48, 48] doy)
-    (textNT ⟨y, mo, dd, h, mi, s, ns⟩) f.items
+    (textNT ⟨y, mo, dd, h, mi, s, ns⟩ e.ts) f.items
     (fun it hi => by
       rw [hitems] at hi
       rcases List.mem_append.mp hi with hi | hi
@@ -940,17 +1002,16 @@ theorem parse_back_numT (O : Oracles) (f : Format) (e : Ep) (hutc : e.ts = TS.UT
       · simp at hi; subst hi
         simp only [textNT]
         rw [if_pos hT, hT]
-        simp only [tokBytes, hutc]
-        decide)
+        rfl)
   rw [hcongr, hitems] at htext
-  refine ⟨concatItems (textNT ⟨y, mo, dd, h, mi, s, ns⟩) (nums ++ [itT]), by rw [← hitems] at htext ⊢; exact htext, ?_⟩
-  obtain ⟨hasc, ⟨c0, post, hc0, hfirst⟩, ⟨pre, hlastc⟩⟩ :=
-    concatItemsT_shape ⟨y, mo, dd, h, mi, s, ns⟩ hF itT hT nums hne (fun it hi => (h7 it hi).1) hgood
-  have htrim : trim (concatItems (textNT ⟨y, mo, dd, h, mi, s, ns⟩) (nums ++ [itT])) =
-      concatItems (textNT ⟨y, mo, dd, h, mi, s, ns⟩) (nums ++ [itT]) := by
+  refine ⟨concatItems (textNT ⟨y, mo, dd, h, mi, s, ns⟩ e.ts) (nums ++ [itT]), by rw [← hitems] at htext ⊢; exact htext, ?_⟩
+  obtain ⟨hasc, ⟨c0, post, hc0, hfirst⟩, ⟨pre, cl, hcl, hlastc⟩⟩ :=
+    concatItemsT_shape ⟨y, mo, dd, h, mi, s, ns⟩ hF e.ts itT hT nums hne (fun it hi => (h7 it hi).1) hgood
+  have htrim : trim (concatItems (textNT ⟨y, mo, dd, h, mi, s, ns⟩ e.ts) (nums ++ [itT])) =
+      concatItems (textNT ⟨y, mo, dd, h, mi, s, ns⟩ e.ts) (nums ++ [itT]) := by
     apply trim_id
     · intro c hc; rw [hfirst] at hc; simp at hc; subst hc; exact digit_not_ws _ hc0
-    · intro c hc; rw [hlastc] at hc; simp at hc; subst hc; decide +kernel
+    · intro c hc; rw [hlastc] at hc; simp at hc; subst hc; exact upper_not_ws _ hcl
   cases hnums : nums with
   | nil => exact absurd hnums hne
   | cons it0 rest =>
@@ -959,17 +1020,21 @@ theorem parse_back_numT (O : Oracles) (f : Format) (e : Ep) (hutc : e.ts = TS.UT
     simp only [List.cons_append]
     rw [← List.cons_append, ← hnums, htrim, byteLen_ascii _ hasc]
     obtain ⟨st', hl, hdat⟩ := loop_numsT O f ⟨y, mo, dd, h, mi, s, ns⟩ hF
-      (concatItems (textNT ⟨y, mo, dd, h, mi, s, ns⟩) (nums ++ [itT])) h16 itT hT hTsep nums [] [] (St.init it0)
+      (concatItems (textNT ⟨y, mo, dd, h, mi, s, ns⟩ e.ts) (nums ++ [itT])) e.ts h16 itT hT hTsep nums [] [] (St.init it0)
       (by simp [hitems]) hne (fun it hi => (h7 it hi).1) hgood hlast (by simp) (by intro c hc; simp at hc) rfl
       (by intro i hi; rw [hnums] at hi; simp at hi; subst hi; exact ⟨rfl, rfl⟩) rfl
     simp only [List.length_nil] at hl
     rw [hl]
     simp only
-    rw [foldFlds_data_eq] at hdat
+    have hfd := foldFlds_data_eq ⟨y, mo, dd, h, mi, s, ns⟩ nums (St.init it0)
     rw [if_pos (hfull .Year rfl), if_pos (hfull .Month rfl), if_pos (hfull .Day rfl), if_pos (hfull .Hour rfl),
-      if_pos (hfull .Minute rfl), if_pos (hfull .Second rfl), if_pos (hfull .Subsecond rfl)] at hdat
-    have hfin : finish st' = finish ⟨y, mo, dd, h, mi, s, ns, 0, 0, TS.UTC, false, none, none, 0, 0, it0, it0.token, it0⟩ :=
-      finish_data _ _ (by rw [hdat]; rfl)
+      if_pos (hfull .Minute rfl), if_pos (hfull .Second rfl), if_pos (hfull .Subsecond rfl)] at hfd
+    have hfin : finish st' = finish ⟨y, mo, dd, h, mi, s, ns, 0, 0, e.ts, false, none, none, 0, 0, it0, it0.token, it0⟩ := by
+      apply finish_data
+      rw [hdat]
+      simp only [St.data, Prod.mk.injEq] at hfd ⊢
+      obtain ⟨e1, e2, e3, e4, e5, e6, e7, e8, e9, e10, e11, e12, e13⟩ := hfd
+      exact ⟨e1, e2, e3, e4, e5, e6, e7, e8, e9, trivial, e11, e12, e13⟩
     rw [hfin]
     unfold finish buildEpoch
     simp only
@@ -981,7 +1046,7 @@ theorem parse_back_numT (O : Oracles) (f : Format) (e : Ep) (hutc : e.ts = TS.UT
     have u6 : toU32 ns = some ns := by unfold toU32; rw [if_pos (by omega)]
     rw [u1, u2, u3, u4, u5, u6]
     simp only
-    rw [← hutc, hmfg]
+    rw [hmfg]
     simp only [Bool.false_eq_true, if_false]
     rw [tz_zero]
     simp only
@@ -1056,7 +1121,7 @@ def numTClass (f : Format) : Bool :=
   [Token.Year, .Month, .Day, .Hour, .Minute, .Second, .Subsecond].all
     (fun t => f.items.dropLast.any (fun it => it.token == t))
 
-theorem parse_back_numTClass (O : Oracles) (f : Format) (e : Ep) (hc : numTClass f = true) (hutc : e.ts = TS.UTC)
+theorem parse_back_numTClass (O : Oracles) (f : Format) (e : Ep) (hc : numTClass f = true)
     (hd : e.dur.Canon) (hr : Cal.InCal e.dur.val)
     (hy : ∀ y mo dd h mi s ns, Cal.computeGregorian e.dur e.ts = .ok (y, mo, dd, h, mi, s, ns) → 0 ≤ y ∧ y ≤ 9999) :
     ∃ text, formatterOutput O f e none = .ok text ∧ formatParse O f text = .ok e := by
@@ -1072,7 +1137,7 @@ theorem parse_back_numTClass (O : Oracles) (f : Format) (e : Ep) (hc : numTClass
   rw [hdl] at h4 h5 h6
   have hnne : nums ≠ [] := by
     intro h; rw [hitems, h] at h1; simp at h1
-  apply parse_back_numT O f e hutc hd hr hy nums itT hitems hnne h2 h3.1.1 h3.1.2 h3.2
+  apply parse_back_numT O f e hd hr hy nums itT hitems hnne h2 h3.1.1 h3.1.2 h3.2
   · intro it hi
     have := h4 it hi
     exact ⟨this.1.1, by simpa using this.1.2⟩
@@ -1153,7 +1218,7 @@ theorem step_sign (O : Oracles) (f : Format) (s : List Nat) (len sg idx : Nat) (
   rw [if_neg (by intro h; exact hoh (htok ▸ h.1)), if_neg (by intro h; omega), if_neg (by rw [htok]; exact hts),
     if_neg (by intro h; omega), if_neg (by intro h; exact hoh (htok ▸ h.1))]
   unfold stepField
-  rw [if_pos (Or.inr hsn)]
+  rw [if_pos (Or.inr ⟨hsn, Or.inl (by rw [htok]; exact hnum)⟩)]
   have hsnot : (st.cur.sepIsNot sg && (st.cur.sep2.isNone || st.cur.sep2IsNot sg)) = false := by
     unfold Item.sepIsNot; rw [hcur, hsep]; simp
   rw [hsnot]
@@ -1228,11 +1293,11 @@ theorem step_last_min (O : Oracles) (f : Format) (s : List Nat) (len idx : Nat) 
     if_neg (by rw [htok]; decide), if_neg (by intro h; unfold isDigitC at hd2; omega),
     if_neg (by intro h; rw [htok] at h; exact absurd h.1 (by decide))]
   unfold stepField
-  have hno : ¬ (idx + 1 ≠ len ∨ isNum m2 = false) := by
+  have hno : ¬ (idx + 1 ≠ len ∨ (isNum m2 = false ∧ (st.tok.isNumeric = true ∨ st.cur.sep1 = some m2))) := by
     intro h
     rcases h with h | h
     · omega
-    · rw [hcn] at h; exact absurd h (by decide)
+    · rw [hcn] at h; exact absurd h.1 (by decide)
   rw [if_neg hno]
   unfold afterEnd
   simp only
@@ -1249,7 +1314,7 @@ theorem step_last_min (O : Oracles) (f : Format) (s : List Nat) (len idx : Nat) 
     simp [store, hlex, this, Token.gregorianPosition, St.setPos]
   rw [hst]
   simp only [Bool.false_eq_true, if_false]
-  rw [if_neg (by decide)]
+  rw [if_neg (by decide), if_neg (by intro h; omega)]
 
 /-- `step_sign` with the resulting state described by its properties -/
 theorem step_sign' (O : Oracles) (f : Format) (s : List Nat) (len sg idx : Nat) (st : St) (F : Flds)
